@@ -77,12 +77,8 @@ func (c *CppCommentState) NextToken(
 		str := c.GetSingleLineComment(scanner)
 		return tokenizers.NewToken(tokenizers.Comment, "//"+str, line, column)
 	} else {
-		if !utilities.CharValidator.IsEof(secondSymbol) {
-			scanner.Unread()
-		}
-		if !utilities.CharValidator.IsEof(firstSymbol) {
-			scanner.Unread()
-		}
+		// Unread both symbols (the second one may be the end-of-input slot)
+		scanner.UnreadMany(2)
 		return tokenizer.SymbolState().NextToken(scanner, tokenizer)
 	}
 }
